@@ -1,10 +1,10 @@
 (* Proofs/FormatEofProofs.v — C14/C08, the end of the output, with hypotheses about the LINES only.
 
-   decided_tokens_src: every token the line wrapper decides (in either phase) lies in a line that is formatted as a top-level
+   olf_model_effect_src (with plan1_src): every token the line wrapper decides (in either phase) lies in a line that is formatted as a top-level
    line (lv_top in phase 1, a reflowed line in phase 2) or in a line that has a PARENT — because the child solutions of every
    solution, at every depth and from the cache, sit on lines that a record lists as child lines (WrapKidsProofs.solve_kids), and
    get_line_children only lists lines with a parent (line_children_have_parent).
-   Hence (wrapper_keeps_lone_token): a token that is only in parentless lines which are neither formatted top-level lines nor
+   Hence (olf_model_keeps_lone_token): a token that is only in parentless lines which are neither formatted top-level lines nor
    reflowed keeps its counters through the wrapper.  For the Eof token of a composed run: if the lines the wrapper gets hold it only
    in parentless Eof lines [e] that are nobody's parent (eof_lines_ok: decidable, about the parse), an Eof line exists, and the
    Eof token is not ignored, then the output is the text of the other tokens followed by exactly ONE configured line ending
